@@ -23,6 +23,8 @@
 //!        10 dictsort (count != 0: by="value") 11 items 12 map(attribute=attr[, default=fill]) 13 select 14 reject 15 sum
 //!        16 join(attr as the joiner); rev/cs: 0 false 1 true 2 unset
 //!   -> 0 <canonical value> | 1 errcode | 2 (panic)
+//! Mode 2 (containment): 2 <container> <needle>
+//!   -> [v in c, v not in c, v is in(c), v in (c|list), c[v] is defined (maps only, else 9)]   0/1 or 100+err
 //! Canonical value = description with integer width 0 and iterable sizedness 0; strings report the safe flag.
 use std::collections::hash_map::DefaultHasher;
 use std::fmt;
@@ -236,6 +238,25 @@ fn main() {
             out.push(tmpl_bool(&env, "a == b", &a, &b));
             out.push(tmpl_bool(&env, "a in [b]", &a, &b));
             out.push(tmpl_bool(&env, "{b: 1}[a] is defined", &a, &b));
+        } else if mode == 2 {
+            // containment: 2 <container> <needle> -> [v in c, v not in c, v is in(c), v in (c|list), c[v] is defined (maps only, else 9)]
+            let cont = value(&env, c);
+            let needle = value(&env, c);
+            let is_map = cont.kind() == ValueKind::Map;
+            let ctx: Value = [("a", needle), ("b", cont)]
+                .into_iter()
+                .collect::<std::collections::BTreeMap<&str, Value>>()
+                .into();
+            for src in ["a in b", "a not in b", "a is in(b)", "a in (b|list)", "b[a] is defined"] {
+                if src.starts_with("b[") && !is_map {
+                    out.push("9".into());
+                    continue;
+                }
+                out.push(match env.compile_expression(src).and_then(|e| e.eval(ctx.clone())) {
+                    Ok(v) => if v.is_true() { "1" } else { "0" }.into(),
+                    Err(e) => (100 + err_code(e.kind())).to_string(),
+                });
+            }
         } else {
             let fid = c.i64();
             let rev = opt_flag(c.i64());
